@@ -219,6 +219,8 @@ def _conv_pair_shared(net):
     return _conv_again(net)
 
 
+inst("conv3x3_c72_pc", "t")(lambda n: _conv_like(n, "conv", 3, 1, PAD_SAME, "NONE", cout=72, per_channel=True))
+inst("conv1x1_c40", "t")(lambda n: _conv_like(n, "conv", 1, 1, PAD_SAME, "RELU", cout=40))
 inst("conv3x3_c1")(lambda n: _conv_like(n, "conv", 3, 1, PAD_SAME, "NONE", cout=1))
 inst("conv3x3d2x1", "t")(lambda n: _conv_like(n, "conv", 3, 1, PAD_SAME, "NONE", dil=(2, 1)))
 inst("conv3x3d1x2", "t")(lambda n: _conv_like(n, "conv", 3, 1, PAD_SAME, "NONE", dil=(1, 2)))
